@@ -2285,7 +2285,7 @@ func normalizeHost(host string) string {
 		return strings.Trim(host, "[]")
 	}
 	if h, _, err := net.SplitHostPort(host); err == nil {
-		return h
+		return strings.TrimSuffix(h, ".")
 	}
 	return host
 }
